@@ -253,6 +253,109 @@ fn cell(idx: u64, seed: u64, variant: u64, rec: &mut Rec) {
     check_verdict(&d, &truth, rec, "C10");
 }
 
+/// A refusal seen while awaiting 100 closes THAT connection. The request the refusing redirect leads to is an exchange
+/// of its own: with none of the five conditions holding there, its connection must be offered for reuse.
+fn after_refusal_cell(idx: u64, rec: &mut Rec) {
+    use ureq_proto::client::flow::{Await100Result, RedirectAuthHeaders, SendRequestResult};
+    let status = [301u16, 302, 303][(idx % 3) as usize];
+    let loc = ["/moved", "http://other.test/m", "//h.test/again"][(idx / 3 % 3) as usize];
+    let method = ["POST", "PUT"][(idx / 9 % 2) as usize];
+    let shown_in_await = idx / 18 % 2 == 0;
+    let cfg = ReqCfg::new(method, "http://h.test/up").h("expect", b"100-continue").h("content-length", b"5");
+    let refusal = format!("HTTP/1.1 {} Moved\r\nLocation: {}\r\nContent-Length: 0\r\n\r\n", status, loc).into_bytes();
+    let res = (|| -> Result<(bool, Option<&'static str>, bool, Option<&'static str>), String> {
+        let mut f = build_flow(&cfg).map_err(|e| format!("{:?}", e))?.proceed();
+        write_head_big(&mut f).map_err(|e| format!("{:?}", e))?;
+        let mut a = match f.proceed().map_err(|e| format!("{:?}", e))?.ok_or("none")? {
+            SendRequestResult::Await100(a) => a,
+            _ => return Err("no Await100".into()),
+        };
+        let r = if shown_in_await {
+            a.try_read_100(&refusal).map_err(|e| format!("{:?}", e))?;
+            match a.proceed().map_err(|e| format!("{:?}", e))? {
+                Await100Result::RecvResponse(r) => r,
+                _ => return Err("the refusal did not lead to the receive state".into()),
+            }
+        } else {
+            // the caller gave up waiting and sent the body; the redirect is an ordinary answer then
+            match a.proceed().map_err(|e| format!("{:?}", e))? {
+                Await100Result::SendBody(mut s) => {
+                    let mut buf = [0u8; 64];
+                    s.write(b"hello", &mut buf).map_err(|e| format!("{:?}", e))?;
+                    s.proceed().ok_or("body not finished")?
+                }
+                _ => return Err("giving up did not lead to the body".into()),
+            }
+        };
+        let (end, ..) = fast_response(r, &refusal)?;
+        let mut red = match end {
+            End::Redirect(r) => r,
+            End::Cleanup(_) => return Err("no redirect state".into()),
+        };
+        let first = (red.must_close_connection(), red.close_reason());
+        let nf = red.as_new_flow(RedirectAuthHeaders::Never).map_err(|e| format!("{:?}", e))?.ok_or("not followed")?;
+        let mut s = nf.proceed();
+        write_head_big(&mut s).map_err(|e| format!("{:?}", e))?;
+        let rr = to_recv_response(s, b"")?;
+        let (end, ..) = fast_response(rr, b"HTTP/1.1 200 OK\r\nContent-Length: 2\r\n\r\nok")?;
+        match end {
+            End::Cleanup(c) => Ok((first.0, first.1, c.must_close_connection(), c.close_reason())),
+            End::Redirect(_) => Err("200 led to the redirect state".into()),
+        }
+    })();
+    rec.call();
+    rec.ev(|| format!("{} with Expect answered {} Location {} ({}), followed, answered 200 -> {:?}", method, status, loc, if shown_in_await { "seen while awaiting" } else { "after the body" }, res));
+    match res {
+        Err(e) => rec.fail("C10/setup", e),
+        Ok((first_close, _, second_close, second_reason)) => {
+            rec.cov(if shown_in_await { "after-refusal/seen-while-awaiting" } else { "after-refusal/after-the-body" });
+            if first_close != shown_in_await {
+                return rec.fail(
+                    if first_close { "C10/verdict-close-demanded-without-condition" } else { "C10/verdict-reuse-offered-but-must-close" },
+                    format!("the {} exchange: must_close = {} at Redirect", if shown_in_await { "refused" } else { "completed" }, first_close),
+                );
+            }
+            if second_close || second_reason.is_some() {
+                rec.fail(
+                    "C10/verdict-close-demanded-without-condition",
+                    format!("the request the redirect led to (GET, HTTP/1.1, no Connection field either way, 200 with a length): must_close = {} reason = {:?} - no condition holds in this exchange", second_close, second_reason),
+                );
+            }
+        }
+    }
+}
+
+/// The opt-in for truncated redirect heads must not touch a head that is complete, however its lines end: a 3xx whose
+/// line ends are bare LF (accepted by the parser) is complete, nothing was lost, and no condition holds.
+fn opt_in_complete_cell(idx: u64, rec: &mut Rec) {
+    let status = [301u16, 302, 307, 200][(idx % 4) as usize];
+    let eol = ["\r\n", "\n"][(idx / 4 % 2) as usize];
+    let last = ["\r\n", "\n"][(idx / 8 % 2) as usize];
+    let method = ["GET", "HEAD"][(idx / 16 % 2) as usize];
+    let head = format!("HTTP/1.1 {} X{eol}Server: t{eol}Location: /moved{eol}Content-Length: 0{eol}{last}", status, eol = eol, last = last);
+    let mut f = super::c05::recv_flow(method);
+    f.allow_partial_redirect(true);
+    rec.call();
+    let res = fast_response(f, head.as_bytes());
+    rec.ev(|| format!("{} allow_partial_redirect(true); complete head {:?} -> {:?}", method, head, res.as_ref().map(|(_, o, n, _)| (o.status, *n)).map_err(|e| e.clone())));
+    match res {
+        Err(e) => rec.fail("C10/setup", format!("complete head with {:?} line ends: {}", eol, e)),
+        Ok((end, _, consumed, _)) => {
+            let (mc, why) = match &end {
+                End::Redirect(r) => (r.must_close_connection(), r.close_reason()),
+                End::Cleanup(c) => (c.must_close_connection(), c.close_reason()),
+            };
+            rec.cov(&format!("opt-in-complete/{}", if eol == "\n" || last == "\n" { "bare-lf" } else { "crlf" }));
+            if consumed != head.len() {
+                return rec.fail("C10/setup", format!("consumed {} of {}", consumed, head.len()));
+            }
+            if mc || why.is_some() {
+                rec.fail("C10/verdict-close-demanded-without-condition", format!("a complete {} head (line ends {:?}/{:?}) under the opt-in: must_close = {} reason = {:?} - nothing was lost and no condition holds", status, eol, last, mc, why));
+            }
+        }
+    }
+}
+
 /// Opt-in truncated redirects: the message boundary is lost, so whatever Connection field the
 /// truncated head carries, the connection must never be offered for reuse.
 fn partial_redirect_cell(idx: u64, rec: &mut Rec) {
@@ -359,6 +462,8 @@ impl Property for P {
             Workload::new("oneshot", CELLS, true, "every cell, one-shot I/O"),
             Workload::new("scheduled", CELLS * tier.pick(2, 60), false, "every cell again under seeded random I/O schedules"),
             Workload::new("open-framing-cells", 3 * 6 * 4 * 2, true, "3xx whose framing the statement leaves open: if the flow calls the body close-delimited it must close"),
+            Workload::new("after-refusal-by-redirect", 36, true, "Expect refused by a 301/302/303 (seen while awaiting, or after giving up): the request it leads to is an exchange of its own and ends reusable"),
+            Workload::new("opt-in-complete-heads", 32, true, "allow_partial_redirect(true) and complete heads with CRLF or bare-LF line ends: nothing was lost, no condition holds"),
             Workload::new("partial-redirect-opt-in", 3 * 4 * 4 * 2 * 4, true, "allow_partial_redirect(true): truncated 3xx heads with their own Connection fields; the lost boundary must force close"),
         ]
     }
@@ -369,6 +474,10 @@ impl Property for P {
             open_framing_cell(idx, rec)
         } else if wl == "partial-redirect-opt-in" {
             partial_redirect_cell(idx, rec)
+        } else if wl == "after-refusal-by-redirect" {
+            after_refusal_cell(idx, rec)
+        } else if wl == "opt-in-complete-heads" {
+            opt_in_complete_cell(idx, rec)
         } else {
             cell(idx % CELLS, seed, 1 + idx / CELLS, rec)
         }
